@@ -55,6 +55,12 @@ func setupPrefix(args ...string) (handler.Handler6, error) {
 		return nil, fmt.Errorf("Invalid pool subnet: %v", err)
 	}
 
+	if len(prefix.IP) != net.IPv6len {
+		// the allocator does 128-bit arithmetic on the pool base: an IPv4 subnet
+		// would be accepted here and panic on the first hint that falls inside it
+		return nil, fmt.Errorf("Invalid pool subnet: %s is not an IPv6 prefix", args[0])
+	}
+
 	allocSize, err := strconv.Atoi(args[1])
 	if err != nil || allocSize > 128 || allocSize < 0 {
 		return nil, fmt.Errorf("Invalid prefix length: %v", err)
